@@ -276,7 +276,7 @@ func c13Run(w *kernel.Worker, j *c13Job, rep *kernel.Report) (*Fail, error) {
 		rep.Transition(1)
 	}
 	// all query forms in the reached state
-	exprs := []string{"a", "ab", "a-b", "a*", "*", "x", "a,ab", "zz", "ab,x"}
+	exprs := []string{"a", "ab", "a-b", "a*", "*", "x", "a,ab", "zz", "ab,x", "*a", "*b", "a*b"}
 	var qs []Q
 	type qd struct {
 		org  int64
@@ -435,7 +435,7 @@ func C13() int {
 	}
 	rep.Rule = fmt.Sprintf("breadth-first search to depth %d over the tenant model with operations ingest(org∈{0,1}, index∈{a, ab, a-b}), add/remove alias (x, and ab which is also an index name), "+
 		"delete(org, index | a*), rotate; every distinct canonical state (sorted model + layout flag) is reached on the real code by replaying its shortest path in a fresh name space, "+
-		"then 9 index expressions (a, ab, a-b, a*, *, x, \"a,ab\", zz, \"ab,x\") × both organisations × {*, stats count} are evaluated: no event of the other organisation, "+
+		"then 12 index expressions (a, ab, a-b, a*, *, x, \"a,ab\", zz, \"ab,x\", and the wildcards *a, *b, a*b that do not end in *) × both organisations × {*, stats count} are evaluated: no event of the other organisation, "+
 		"nothing outside the named indexes, everything inside them. non-trivial = expression with a non-empty expected result while both orgs (or ≥2 indexes of the org) hold data", depth)
 	rep.Assume = []string{"multi-tenancy is driven through the public seam: GetIdsConditionHook → [0,1] and the org id argument of the processing functions",
 		"whether a wildcard also expands alias names, and which reading wins when an alias shares its name with an index, is left open (lower/upper bound)"}
